@@ -583,6 +583,7 @@ int main(int argc, char **argv)
                                                 J.attribute("id", (int64_t)ValId[&I]);
                                                 J.attribute("op", "dbg");
                                                 J.attribute("var", DI->getVariable()->getName());
+                                                J.attribute("signed", (int64_t)diSigned(DI->getVariable()->getType()));
                                                 if (DI->getNumVariableLocationOps() == 1 &&
                                                     DI->getVariableLocationOp(0))
                                                 {
